@@ -264,6 +264,29 @@ pub fn main(args: &Args) -> i32 {
     use proptest::prelude::*;
     let cases = if args.cases > 0 { args.cases } else if args.thorough() { 60000 } else { 3000 };
     let strat = (priority_patterns(), prop::option::weighted(0.15, 0usize..40), prop::bool::weighted(0.25));
+    // harvested family: every pattern of the definitions that ship with the repository, with its default priority
+    // (references replaced by the harness' own inlining), as a token / regex and - for skips - as a skip
+    for h in model::harvest::harvest() {
+        for (pat, variant) in h.def.leaves() {
+            let mut pat = pat.clone();
+            if let Some(i) = pat.inlined.take() {
+                pat.lit = i;
+            }
+            pat.callback = None;
+            let case = (pat, None, variant.is_none());
+            run.count("harvested_patterns", 1);
+            if let Err(msg) = check_pattern(&case, &mut run) {
+                if msg.starts_with("oracle disagreement") {
+                    eprintln!("{msg}");
+                    return 2;
+                }
+                run.violations = 1;
+                report_violation("C09", &args.replay_dir, &json!({"property": "C09", "tier": "G", "origin": h.origin, "pattern": case.0, "explicit": case.1, "as_skip": case.2, "findings": [{"property": "C09", "what": msg}]}));
+                run.write_evidence(&args.evidence);
+                return 1;
+            }
+        }
+    }
     let mut code = 0;
     match drive(&strat, cases, args.seed ^ 0xC09, 800, &mut run, |c, run| check_pattern(c, run)) {
         DriveResult::Pass => {}
